@@ -279,11 +279,20 @@ def run_dist(case):
         spec.pop('bin_edges', None)
         spec['bins_number'] = int(rng.choice([4, 8, 16]))
         # batches with clearly different ranges: the refused batch (rows taken anywhere) does not span the window of the first accepted one
-        traces = np.array(traces, copy=True)
-        traces[:sizes[0]] = np.clip(traces[:sizes[0]], -20, 20)
-        traces[0, :], traces[min(1, sizes[0] - 1), :] = -20, 20
         if sizes[0] < 2:
-            return t.result(nontrivial=False, sig='mia_auto_first_batch_too_short', sample=dict(case=case))
+            j_ = int(np.argmax(sizes))
+            if sizes[j_] < 2 or j_ == 0:
+                r = core.held(0, nontrivial=False, counters=dict(t.counters, generator_rejected_first_batch_too_short=1))
+                r['metrics'] = {}
+                return r
+            sizes[0] += 1
+            sizes[j_] -= 1
+        traces = np.array(traces, copy=True)
+        if traces.dtype.kind in 'iu':
+            traces = traces.astype('int16')               # signed, so that the window of the first batch can be placed at will
+            tdtype = 'int16'
+        traces[:sizes[0]] = np.clip(traces[:sizes[0]], -20, 20)
+        traces[0, :], traces[1, :] = -20, 20
         t.count('mia_automatic_window_cases')
     kern = name in ('anova', 'nicv', 'snr', 'tbuild')
     kseq = [int(v) for v in rng.integers(0, 2, k)] if kern else None
